@@ -284,9 +284,6 @@ theorem trees_to_router (nets : List Net) (hwf : ∀ n ∈ nets, n.tree.WF)
 the reply that was lost, the chip executes the allocation twice and the controller only ever learns the
 second base.  On the router specification: -/
 
-/-- the chip after it executed an allocation request whose reply never reached the controller -/
-def afterLostAlloc (pol : Pol) (s : Chip) (x y app n : Nat) : Chip := (stepChip pol s (allocReq x y app n)).1
-
 theorem afterLostAlloc_eq (pol : Pol) (s : Chip) (x y app n : Nat) (ha : app < 256)
     (h : pol s.rows app n ≠ 0) :
     afterLostAlloc pol s x y app n = { s with rows := claim s.rows (pol s.rows app n) n app } := by
